@@ -112,7 +112,7 @@ CLAIMED = {
     "C16": dict(
         category="fault_enumeration",
         technique="complete enumeration of a (protocol step x fault kind) grid injected by a relaying stand-in co-process, plus Hypothesis-generated sequences of faults across relaunches and a rapidcheck property over the reply decoder on hostile bytes (in-process, ASan/UBSan); oracle on the VM's ending, output prefix, error report and leftover processes",
-        text="A stand-in nano_cop first on PATH relays every message between nano_vm --isolate-ffi and the real nano_cop and injects one fault: 11 protocol steps (before/after READY; on request, before reply, mid-reply for calls 1-3) x 29 kinds (exit 0/1, SIGKILL, closing either or both pipes, 1-7 byte headers, wrong version/type, length beyond COP_MAX_PAYLOAD, short and overlong payloads, undecodable values incl. lengths that wrap in 32 bits and 60 000-deep nesting, empty, 300-byte, 20 000-byte and 1 MiB error texts) - 319 plans, all executed, all fire. The VM must end with status 0 or 1 (never a signal), report an error when it fails, keep every line printed before the faulted call, print nothing wrong, and leave neither the stand-in nor the real co-process alive.",
+        text="A stand-in nano_cop first on PATH relays every message between nano_vm --isolate-ffi and the real nano_cop and injects one fault: 11 protocol steps (before/after READY; on request, before reply, mid-reply for calls 1-3) x 32 kinds (exit 0/1, SIGKILL, closing either or both pipes, 1-7 byte headers, wrong version/type, length beyond COP_MAX_PAYLOAD, short and overlong payloads, undecodable values incl. lengths that wrap in 32 bits and 60 000-deep nesting, empty, 300-byte, 20 000-byte and 1 MiB error texts, protocol violations after which the co-process neither reads nor exits) - 352 plans, all executed, all fire. The VM must end with status 0 or 1 (never a signal), report an error when it fails, keep every line printed before the faulted call, print nothing wrong, and leave neither the stand-in nor the real co-process alive.",
         note="The stand-in is a Python relay: timing differs from a real crash. Only the workload's five calls are exercised (requests 1-3 faulted).",
         design="3/C16"),
     "C17": dict(
